@@ -365,6 +365,12 @@ def queries(tier):
                     covers=["delivered_k1"],
                     desc="2 symbolic headers with no idle word between them (the second HPSTART directly follows the first "
                          "header's last word); PHY ready, consumption and retry free"))
+    # all four buffers in use at once: four headers while the protocol layer accepts none of them
+    f4 = lambda: HeaderRxHarness(n_packets=4, lead=9, spacing=1)
+    qs.append(Query("bmc_4hp_consumer_stalled", f4, f4().K, layer=dict(_NO_EXTRA, q_ready=0), timeout=900, hints=hint,
+                    split=False, covers=[],
+                    desc="layer: protocol layer never ready, no LRTY/keepalive/LXU; 4 symbolic headers fill all four buffers: "
+                         "each is accepted, acknowledged and stays offered"))
     if not quick:
         qs.append(Query("bmc_3hp_free", f3, f3().K + 6, timeout=1800, covers=[], split=False,
                         desc="3 symbolic headers, everything free, deeper"))
